@@ -295,6 +295,11 @@ def coerce_arg(ip: Interp, v, sortname: str, n):
         return v
     sortname = _split_overrides(sortname)[0]
     if sortname in ip.w.registry.classes and 'fields' in ip.w.registry.classes[sortname]:
+        fields = ip.w.registry.classes[sortname]['fields']
+        if S.is_val(v) and set(fields) == {'dkeys', 'dvals'}:
+            # a dict value passed where a string-keyed dict record is expected
+            ip.p.oblige('type', Val.is_vdict(v), n, 'argument is a dict')
+            return PRec(sortname, {'dkeys': z3.simplify(Val.dkeys(v)), 'dvals': z3.simplify(Val.dvals(v))})
         return v
     srt = S.sort_of(sortname)
     if srt is None:
@@ -321,7 +326,7 @@ def bind_params(ip: Interp, c: Contract, recv, args, kwargs, n) -> dict:
         elif name in kwargs:
             env[name] = coerce_arg(ip, kwargs[name], c.sig[name], n)
         elif name == c.kwparam:
-            env[name] = Val.vdict(z3.K(z3.StringSort(), z3.BoolVal(False)), z3.K(z3.StringSort(), Val.none))
+            env[name] = coerce_arg(ip, Val.vdict(z3.K(z3.StringSort(), z3.BoolVal(False)), z3.K(z3.StringSort(), Val.none)), c.sig[name], n)
         else:
             d = c.defaults.get(name, _MISSING)
             if d is _MISSING:
@@ -340,7 +345,7 @@ def bind_params(ip: Interp, c: Contract, recv, args, kwargs, n) -> dict:
             d = Val.vdict(z3.K(z3.StringSort(), z3.BoolVal(False)), z3.K(z3.StringSort(), Val.none))
         for k in sorted(extra - {'**'}):
             d = Val.vdict(z3.Store(Val.dkeys(d), z3.StringVal(k), True), z3.Store(Val.dvals(d), z3.StringVal(k), ip.to_val(kwargs[k], n)))
-        env[c.kwparam] = d
+        env[c.kwparam] = coerce_arg(ip, d, c.sig[c.kwparam], n)
         extra = set()
     if extra:
         ip.oos(f'call of {c.key}: unexpected keyword {sorted(extra)}', n)
@@ -370,6 +375,12 @@ def pick_variant(ip: Interp, vs: VariantSet, recv, args, kwargs, n) -> Contract:
         ok = True
         for name, sortname in c.sig.items():
             v = env.get(name)
+            base = _split_overrides(sortname.strip())[0]
+            # a variant stated for one representation of an object is not used for another one
+            if isinstance(v, (PRec, ZRec)) and (base in ip.w.registry.classes or base in S.RECORDS) and v.cls != base:
+                ok = False
+            if S.is_record(v) and (base in ip.w.registry.classes or base in S.RECORDS) and S.record_name(v.sort()) != base:
+                ok = False
             if sortname.strip() == 'None' and v is not None:
                 ok = False
             if sortname.strip() != 'None' and v is None and not sortname.strip().startswith(('Val', 'any')):
@@ -617,6 +628,7 @@ def _run_path(ip: Interp, c: Contract, fn: ast.FunctionDef, cls):
         env[name] = mk_symbolic(ip, sortname, name)
     for g, gs in c.ghost.items():
         env[g] = mk_symbolic(ip, gs, g)
+    p.input_names = set(p.vars)  # symbols created for parameters and ghosts: the inputs a counter-model has to give
     for name, sortname in c.sig.items():
         if c.wf:
             wf_assume(ip, env[name], sortname)
@@ -634,6 +646,8 @@ def _run_path(ip: Interp, c: Contract, fn: ast.FunctionDef, cls):
                 for pname, was_mutable in getattr(ip, '_param_mutable', {}).items():
                     if not was_mutable:
                         yenv[pname] = ip.env[f'old_{pname}']
+                    else:
+                        yenv[pname] = ip._entry_objs[pname]
                 sub = Interp(ip.p, None, yenv, spec=True, fname=f'{ip.fname}<yield>')
                 sub.contract = c
                 for clause in c.at_yield:
@@ -643,6 +657,7 @@ def _run_path(ip: Interp, c: Contract, fn: ast.FunctionDef, cls):
 
         ip.yield_cb = _cb
     ip._param_mutable = {}
+    ip._entry_objs = {name: env[name] for name in c.sig}  # the objects passed in (a parameter may be rebound in the body)
     for name in c.sig:
         env[f'old_{name}'] = snapshot(env[name])
         ip._param_mutable[name] = isinstance(env[name], (PRec, ZRec))
@@ -661,6 +676,8 @@ def _run_path(ip: Interp, c: Contract, fn: ast.FunctionDef, cls):
     for name, was_mutable in getattr(ip, '_param_mutable', {}).items():
         if not was_mutable:
             penv[name] = env[f'old_{name}']
+        else:
+            penv[name] = ip._entry_objs[name]  # the object passed in, in its final state (the local may be rebound)
     penv['retval' if 'result' in c.sig else 'result'] = _coerce_result(ip, result, c.ret, fn)
     _frame_check(ip, c, fn)
     sub = Interp(p, None, penv, spec=True, fname=f'{ip.fname}<post>')
@@ -674,7 +691,7 @@ def _run_path(ip: Interp, c: Contract, fn: ast.FunctionDef, cls):
 def _frame_check(ip: Interp, c: Contract, fn):
     """fields of object parameters outside `modifies` must be unchanged at the exit"""
     for name in c.sig:
-        cur = ip.env.get(name)
+        cur = getattr(ip, '_entry_objs', {}).get(name, ip.env.get(name))
         old = ip.env.get(f'old_{name}')
         if isinstance(cur, PRec) and isinstance(old, PRec):
             _frame_rec(ip, c, fn, name, cur, old)
@@ -729,6 +746,8 @@ def _exceptional_exit(ip: Interp, c: Contract, exc: ExcV, fn):
     for name, was_mutable in getattr(ip, '_param_mutable', {}).items():
         if not was_mutable:
             env[name] = env[f'old_{name}']
+        else:
+            env[name] = ip._entry_objs[name]
     env['exc'] = exc
     if os.environ.get('PYVC_DEBUG'):
         print('exceptional exit', exc.cls, exc.origin, exc.info, file=sys.stderr)
